@@ -347,3 +347,20 @@ def emitted(res, tag):
             s = json.loads(line)
             out.append(json.loads(s[len(tag) + 3:]))
     return out
+
+
+def witnesses(module, cfg_base, names, tag, gen=None, timeout=600):
+    """Vacuity guard: each named invariant is the negation of a situation that must be reachable,
+    so TLC has to VIOLATE each of them.  One short run per witness (stops at the first violation).
+    Returns the list of witnesses that were NOT reached."""
+    import concurrent.futures as cf
+
+    def one(w):
+        r = run(module, cfg_base + "INVARIANT %s\n" % w, "%s_%s" % (tag, w), gen=gen, timeout=timeout, workers=4)
+        return w, (w in r.violated)
+    missing = []
+    with cf.ThreadPoolExecutor(len(names)) as ex:
+        for w, hit in ex.map(one, names):
+            if not hit:
+                missing.append(w)
+    return missing
